@@ -1,0 +1,11 @@
+//go:build verif
+
+package ice
+
+var verifGateFn func(point string)
+
+func verifGate(point string) {
+	if f := verifGateFn; f != nil {
+		f(point)
+	}
+}
